@@ -51,8 +51,8 @@ func newAddrBook() *addrBook {
 
 func baseAddr(n int) common.Address {
 	var a common.Address
-	if n < 10 { // precompile range (0x01..0x09; 0x0a..0x12 are precompiles too, never used as bN)
-		a[19] = byte(n)
+	if n >= 101 && n <= 118 { // b101..b118 are the precompiles 0x01..0x12
+		a[19] = byte(n - 100)
 		return a
 	}
 	a[0] = 0xB0
@@ -114,7 +114,9 @@ func (ab *addrBook) nameOf(a common.Address) string {
 	for round := 0; round < 4; round++ {
 		names := make([]string, 0, len(ab.byName))
 		for n := range ab.byName {
-			names = append(names, n)
+			if precN(n) == 0 { // precompiles create nothing
+				names = append(names, n)
+			}
 		}
 		sort.Strings(names)
 		for _, n := range names {
@@ -335,7 +337,9 @@ func (h *harness) reset(blk *block) string {
 	h.hostCode = map[string][]byte{}
 	for _, a := range blk.accounts {
 		addr := h.ab.base(a.n)
-		h.seen[addr] = true
+		if a.kind != "p" {
+			h.seen[addr] = true // precompiles are observed once the EVM touches them
+		}
 		if a.balance > 0 {
 			adb.AddBalance(addr, big.NewInt(int64(a.balance)))
 		}
@@ -482,10 +486,18 @@ func (h *harness) runTx(tx *txn) txResult {
 		}
 		target, _ := h.ab.resolveName(tx.target)
 		h.seen[target] = true
-		var input [32]byte
-		input[30] = byte(tx.rootID >> 8)
-		input[31] = byte(tx.rootID)
-		_, _, logs, err = evm.Call(caller, target, input[:], gasCap, value)
+		var sel [32]byte
+		sel[30] = byte(tx.rootID >> 8)
+		sel[31] = byte(tx.rootID)
+		input, gas := sel[:], gasCap
+		if n := precN(tx.target); n != 0 {
+			// a message call straight into a precompile: the body's ending is the wanted outcome
+			input = precInputBytes(n, tx.body.end == "invalid")
+			if tx.body.end == "oog" {
+				gas = 0
+			}
+		}
+		_, _, logs, err = evm.Call(caller, target, input, gas, value)
 	}
 	success := err == nil
 	if h.probe != nil {
@@ -507,7 +519,11 @@ func (h *harness) runTx(tx *txn) txResult {
 		receipt = logs
 	}
 	h.idx++
-	res := txResult{err: errName(err), events: h.events, returned: logs, receipt: receipt, dump: h.dump(), h: h}
+	en := errName(err)
+	if strings.HasPrefix(en, "other:") && !tx.create && precN(tx.target) != 0 {
+		en = "precompile-fail" // whatever message the precompile's Run rejected its input with
+	}
+	res := txResult{err: en, events: h.events, returned: logs, receipt: receipt, dump: h.dump(), h: h}
 	if h.probe != nil {
 		h.probe.end(tx, res)
 	}
